@@ -507,6 +507,8 @@ class ArgumentParser(ParserDeprecations, ActionsContainer, ArgumentLinking, argp
                 cfg = self.merge_config(cfg_base, cfg)
 
             cfg = self._apply_actions(cfg)
+            if isinstance(cfg_obj, Namespace):
+                cfg_obj = cfg_obj.clone()  # _apply_actions works in place, do not modify the given object
             cfg_apply = self._apply_actions(cfg_obj, prev_cfg=cfg)
             cfg = self.merge_config(cfg_apply, cfg)
 
